@@ -7,6 +7,7 @@ package webp
 
 import (
 	"bytes"
+	"encoding/binary"
 	"errors"
 	"fmt"
 	"image"
@@ -216,13 +217,30 @@ func encodeFrameForAnimation(img image.Image, isLossless bool, quality int) ([]b
 		Lossless: isLossless,
 		Quality:  float32(quality),
 		Method:   4,
+		// Alpha is always coded losslessly, as for still images.
+		AlphaCompression: -1,
+		AlphaFiltering:   -1,
+		AlphaQuality:     -1,
 	}
 	if isLossless {
 		bs, _, err := encodeLossless(img, opts)
 		return bs, err
 	}
-	bs, _, err := encodeLossy(img, opts)
-	return bs, err
+	bs, alphaData, _, err := encodeLossyWithAlpha(img, opts)
+	if err != nil || len(alphaData) == 0 {
+		return bs, err
+	}
+	// The frame has transparency: hand the muxer the alpha payload as an
+	// ALPH chunk in front of the VP8 bitstream (the form mux.AddFrame
+	// documents), so that it is written as an ALPH sub-chunk of the frame.
+	out := make([]byte, 0, container.ChunkHeaderSize+len(alphaData)+1+len(bs))
+	out = binary.LittleEndian.AppendUint32(out, container.FourCCALPH)
+	out = binary.LittleEndian.AppendUint32(out, uint32(len(alphaData)))
+	out = append(out, alphaData...)
+	if len(alphaData)&1 != 0 {
+		out = append(out, 0)
+	}
+	return append(out, bs...), nil
 }
 
 // simpleEncodeForAnimation encodes an image as a complete simple (non-animated)
@@ -233,6 +251,11 @@ func simpleEncodeForAnimation(img image.Image, isLossless bool, quality float32)
 		Lossless: isLossless,
 		Quality:  quality,
 		Method:   4,
+		// Alpha is always coded losslessly (a zero AlphaQuality would
+		// quantize it to two levels).
+		AlphaCompression: -1,
+		AlphaFiltering:   -1,
+		AlphaQuality:     -1,
 	}
 	if err := Encode(&buf, img, opts); err != nil {
 		return nil, err
